@@ -57,18 +57,18 @@ impl Engine for St {
         let t = tier == "thorough";
         let p = |s: &str, q: u64, th: u64| (s.to_string(), if t { th } else { q });
         match prop {
-            "C05" => vec![p("io.trunc", 5000, 30000), p("io.read_err", 5000, 30000), p("io.read_benign", 15000, 200000), p("io.sink_err", 5000, 30000), p("io.sink_benign", 15000, 200000)],
+            "C05" => vec![p("io.trunc", 5000, 30000), p("io.read_err", 5000, 30000), p("io.read_benign", 15000, 200000), p("io.sink_err", 5000, 30000), p("io.sink_benign", 15000, 200000), p("bcj2.io", 4000, 50000)],
             "C01" => vec![p("rt.codec", 40000, 500_000), p("rt.codec.bias", 10000, 150_000), p("rt.codec.big", 300, 3000)],
             "C02" => vec![p("rt.container", 40000, 500_000), p("rt.container.bias", 8000, 100_000), p("rt.container.big", 200, 2000)],
             "C03" => vec![p("interop.ours_to_ref", 15000, 200_000), p("interop.ref_to_ours", 8000, 120_000)],
             "C11" => vec![p("filter.inverse", 20000, 250_000), p("filter.ref", 12000, 150_000), p("bcj2.roundtrip", 6000, 80_000)],
             "C04" => vec![p("corrupt.bitflip", 500, 4000), p("corrupt.random", 30000, 400_000), p("corrupt.field", 20000, 250_000), p("corrupt.nonformat", 10000, 100_000)],
             "C06" => vec![p("hostile.random", 60000, 1_000_000), p("hostile.mutated", 30000, 400_000), p("hostile.fields", 12000, 150_000), p("hostile.params", 12000, 150_000), p("hostile.grammar", 40000, 500_000), p("hostile.many", 60, 300)],
-            "C07" => vec![p("history.write", 12000, 120_000), p("history.read", 12000, 120_000)],
+            "C07" => vec![p("history.write", 12000, 120_000), p("history.read", 12000, 120_000), p("bcj2.history", 3000, 40_000)],
             "C12" => vec![p("concat.xz", 40000, 400_000), p("concat.lzip", 20000, 200_000)],
             "C13" => vec![p("determ.repeat", 12000, 150_000), p("determ.partition", 12000, 150_000)],
             "C16" => vec![p("exact", 80000, 1_000_000)],
-            "C15" => vec![p("oob.window", 160, 3000), p("oob.encode", 5000, 100_000), p("oob.decode", 25000, 600_000), p("oob.direct_bits", 20000, 300_000), p("oob.chunkend", 3000, 30_000)],
+            "C15" => vec![p("oob.window", 160, 3000), p("oob.movewin", 1500, 20_000), p("oob.encode", 5000, 100_000), p("oob.decode", 25000, 600_000), p("oob.direct_bits", 20000, 300_000), p("oob.chunkend", 3000, 30_000)],
             "C17" => vec![p("mem.encoder", 1200, 8000), p("mem.decoder.lzma", 4000, 60000), p("mem.decoder.lzma2", 2000, 30000), p("mem.limit", 8000, 100000), p("mem.estimator", 2000, 40000)],
             "C19" => vec![p("misconfig", 30000, 300_000)],
             "C18" => vec![p("sizes", 40000, 600_000)],
@@ -79,9 +79,9 @@ impl Engine for St {
     fn gen(&self, prop: &str, scen: &str, k: u64, seed: u64) -> Case {
         let tier = if std::env::var("VERIF_TIER").map(|t| t == "thorough").unwrap_or(false) { "thorough" } else { "quick" };
         let mut c = match prop {
+            _ if scen.starts_with("bcj2") => bcj2::gen(prop, scen, k, seed, tier),
             "C05" => io_faults::gen(scen, k, seed, tier),
             "C01" | "C02" | "C07" | "C12" | "C13" | "C16" | "C18" => rt::gen(prop, scen, k, seed, tier),
-            "C11" if scen.starts_with("bcj2") => bcj2::gen(prop, scen, k, seed, tier),
             "C03" | "C11" => interop::gen(prop, scen, k, seed, tier),
             "C04" => corrupt::gen(prop, scen, k, seed, tier),
             "C06" => hostile::gen(prop, scen, k, seed, tier),
@@ -95,6 +95,18 @@ impl Engine for St {
         // filter keeps state about (opcode clusters), whatever the scenario drew
         if matches!(prop, "C02" | "C05" | "C07" | "C13" | "C16" | "C18") && c.fmt == "xz" && c.opt.filters.iter().any(|f| f.0 == 4) && (seed >> 9) % 3 == 0 && c.input.len > 0 && !matches!(c.input.class.as_str(), "empty" | "sandwich") {
             c.input.class = "x86soup".into();
+        }
+        // XZ files of 128 and more blocks: the record count of the index needs a two-byte integer
+        // only from there. Rare, because such a file takes half a megabyte of input even with
+        // the smallest block size (the writer raises the block size to the dictionary size).
+        if matches!(prop, "C02" | "C16" | "C18") && c.fmt == "xz" && matches!(scen, "rt.container" | "exact" | "sizes") && (seed >> 17) % 250 == 0 {
+            c.opt.dict = 4096;
+            c.opt.unit = Some(4096);
+            c.opt.preset = None;
+            c.input.class = (*["periodic", "text", "lowent"].get(((seed >> 29) % 3) as usize).unwrap()).into();
+            c.input.p1 = 1 + (seed >> 33) % 700;
+            c.input.len = 4096 * 127 + 1 + ((seed >> 41) % 60_000) as usize;
+            c.wops.clear();
         }
         if tier == "thorough" {
             c.set("tier_thorough", 1);
